@@ -139,9 +139,9 @@ Proof.
                     Sall (rS (dir_recv st s m)) = Sall st -> suba (rS (dir_recv st s m)) a x -> suba st a x).
   { unfold suba, Sa. intros -> ->. auto. }
   destruct m as [o|y ad|l|y|y b|c g addr|c ag|c b|r g b|r b];
-    try (apply Frame;
+    try solve [apply Frame;
          [apply SameSub; [exact HS|exact HL] | unfold Da; destruct HA as [_ ->]; reflexivity
-         | intros d' m' Hm' _; apply dir_outs_class in Hm'; try contradiction | reflexivity]).
+         | intros d' m' Hm' _; apply dir_outs_class in Hm'; contradiction | reflexivity]].
   - (* publish_agent y *)
     destruct HA as [_ HAg]. destruct (Z.eq_dec y x) as [->|Hne].
     + apply Jg_told. intros w Hsub HD. unfold Da in HD. rewrite HAg, zlookup_zset_same in HD. inversion HD; subst w.
@@ -168,8 +168,7 @@ Proof.
       * intros w _ HD. rewrite E1 in HD. discriminate.
       * apply Frame.
         -- unfold suba, Sa. intros [H|[H Hx]]; [left|right; split; auto].
-           ++ destruct E3 as [->| ->]; auto. destruct HB as (_ & _ & B3 & _). eapply sm_purge_get; eauto.
-           ++ apply E4. exact H.
+           destruct E3 as [E3|E3]; rewrite E3 in H; auto. destruct HB as (_ & _ & B3 & _). eapply sm_purge_get; eauto.
         -- apply E2. congruence.
         -- intros d' m' Hm' _. apply E5 in Hm' as [->|Hc]; [|now apply compmsg_silent].
            simpl. destruct (y =? x) eqn:E; auto. apply Z.eqb_eq in E. contradiction.
@@ -191,18 +190,18 @@ Proof.
                  split; [|now apply star_list_tells].
                  apply msgs_to_In. simpl. rewrite Estar. unfold dir_subscribe_all. simpl.
                  unfold to_all. apply in_map_iff. exists a. split; auto.
-                 rewrite HL, Estar in Hin. exact Hin.
+                 rewrite HL in Hin; try rewrite Estar in Hin. exact Hin.
               ** intros m' Hm'. apply msgs_to_In in Hm'. apply dir_outs_class in Hm'. rewrite Estar in Hm'. subst m'.
                  right. now apply star_list_tells.
            ++ apply Frame.
               ** unfold suba, Sa. rewrite HS. intros [H|[H _]]; [left; auto|contradiction].
               ** unfold Da. now rewrite HAg.
-              ** intros d' m' Hm' ->. exfalso. apply Hnin. rewrite HL, Estar.
+              ** intros d' m' Hm' ->. exfalso. apply Hnin. rewrite HL; try rewrite Estar.
                  simpl in Hm'. rewrite Estar in Hm'. unfold dir_subscribe_all in Hm'. simpl in Hm'.
                  apply to_all_In in Hm'. tauto.
               ** reflexivity.
       * (* subscribe_agent y from s *)
-        rewrite Estar in HL.
+        try rewrite Estar in HL.
         destruct (Z.eq_dec y x) as [->|Hne]; [destruct (Z.eq_dec s a) as [->|Hs]|].
         -- apply Jg_told. intros w _ HD. unfold Da in HD. rewrite HAg in HD.
            assert (Ho : rO (dir_recv st a (MSubAgent x true)) = [(a, MPubAgent x w)]).
@@ -253,3 +252,129 @@ Proof.
     + intros d' m' Hm' _. apply dir_outs_class in Hm'. destruct b; [|contradiction]. destruct Hm' as (_ & g & -> & _). reflexivity.
     + reflexivity.
 Qed.
+
+(* ------------------------------------------------------------------ the network level *)
+(* the guard, on one step: the directory is not about to refuse an un-registration published by a
+   (Directory.unregister_agent raises DiscoveryException while computations are hosted on the agent) *)
+Definition GA (a : Z) (cf : config nst msg) (act : action) : Prop :=
+  forall x q, act = Deliver a 0 -> chan cf a 0 = MUnpubAgent x :: q ->
+    agent_computations (n_disc (dirst cf)) x false = [].
+
+Definition IA (a : Z) (cf : config nst msg) : Prop := Qc a (JA a) cf.
+
+Lemma IA_step h a : 0 < a -> forall act cf, Base a cf -> IA a cf -> GA a cf act ->
+  IA a (fst (step (disc_proto h) cf act)).
+Proof.
+  intros Ha act cf (R0 & Ra & T & B) HI HG. apply (Q_step h a Ha); auto.
+  - intros s m q Ea Hc. apply JA_dir; auto.
+    + intros ->. exact Hc.
+    + intros -> x ->. eapply HG; eauto.
+  - intros s m q Ea Hc Hop. apply JA_agent; auto. intros ->. exact Hc.
+Qed.
+
+Lemma IA_init h a : 0 < a -> forall cf, Kinit2 h cf -> IA a cf.
+Proof.
+  intros Ha cf HK. destruct (Kinit2_quiet h a Ha cf HK) as (E1 & E2 & E3).
+  unfold IA, Qc. rewrite E1. intros x w [H|[H _]]; simpl in H; contradiction.
+Qed.
+
+(* in-flight invariant and convergence of the agent sub-protocol: every history, every subscriber,
+   every start order, every schedule along which the guard holds *)
+Lemma disc_agent_inv_l : forall (h : hist_t) (a : Z) (ns : list node) (sched : list (@action)),
+  0 < a -> In 0 ns -> In a ns ->
+  let P := disc_proto h in
+  let cf0 := fst (exec P (init P) (map (@Start) ns)) in
+  along h (GA a) cf0 sched ->
+  Base a (fst (exec P cf0 sched)) /\ IA a (fst (exec P cf0 sched)).
+Proof.
+  intros h a ns sched Ha H0 Hna P cf0 HG.
+  destruct (starts_spec2 h ns (init P) (Kinit2_init h)) as [K R].
+  apply (I_exec h a (GA a) (IA a)); auto.
+  - intros act cf. now apply IA_step.
+  - apply (Kinit2_Base h); auto.
+  - now apply (IA_init h).
+Qed.
+
+Lemma disc_agent_converges_l : forall (h : hist_t) (a : Z) (ns : list node) (sched : list (@action)),
+  0 < a -> In 0 ns -> In a ns ->
+  let P := disc_proto h in
+  let cf0 := fst (exec P (init P) (map (@Start) ns)) in
+  along h (GA a) cf0 sched ->
+  let cf := fst (exec P cf0 sched) in
+  forall x ad,
+    In a (sm_get x (g_sub_agents (n_dir (w_st (nodes cf 0))))) \/
+      (In a (g_sub_all (n_dir (w_st (nodes cf 0)))) /\ x <> 0) ->
+    zlookup x (g_agents (n_dir (w_st (nodes cf 0)))) = Some ad ->
+    chan cf 0 a = [] -> chan cf a 0 = [] ->
+    zlookup x (d_agents (n_disc (w_st (nodes cf a)))) = Some ad.
+Proof.
+  intros h a ns sched Ha H0 Hna P cf0 HG cf x ad Hsub HD E1 E2.
+  destruct (disc_agent_inv_l h a ns sched Ha H0 Hna HG) as [_ HI].
+  fold P cf0 cf in HI. unfold IA, Qc in HI. specialize (HI x ad Hsub HD).
+  rewrite E1, E2 in HI. simpl in HI. destruct HI as [H|H]; [exact H|discriminate].
+Qed.
+
+(* the guard can be checked by computation *)
+Definition GAb (a : Z) (cf : config nst msg) (act : action) : bool :=
+  match act with
+  | Deliver s d =>
+      if (s =? a) && (d =? 0) then
+        match chan cf a 0 with
+        | MUnpubAgent x :: _ =>
+            match agent_computations (n_disc (w_st (nodes cf 0))) x false with [] => true | _ => false end
+        | _ => true
+        end
+      else true
+  | _ => true
+  end.
+
+Fixpoint alongb (h : hist_t) (g : config nst msg -> action -> bool) (cf : config nst msg) (sched : list (@action)) : bool :=
+  match sched with
+  | [] => true
+  | act :: r => g cf act && alongb h g (fst (step (disc_proto h) cf act)) r
+  end.
+
+Lemma alongb_sound h (g : config nst msg -> action -> bool) (G : config nst msg -> action -> Prop) :
+  (forall cf act, g cf act = true -> G cf act) ->
+  forall sched cf, alongb h g cf sched = true -> along h G cf sched.
+Proof.
+  intros Hs. induction sched as [|act r IH]; intros cf H; simpl in *; auto.
+  apply andb_true_iff in H as [H1 H2]. split; auto.
+Qed.
+
+Lemma GAb_sound a cf act : GAb a cf act = true -> GA a cf act.
+Proof.
+  unfold GAb, GA. intros H x q -> Hc. rewrite Z.eqb_refl in H. simpl in H. rewrite Hc in H.
+  unfold dirst. destruct (agent_computations _ x false); [reflexivity|discriminate].
+Qed.
+
+(* ---- the unguarded statement is false of the model (finding C20-unregister-agent-refused):
+   agent 2 registers agent 3 and subscribes to it, agent 1 registers computation 0 on agent 3,
+   then 2 un-registers 3 locally: the directory refuses, keeps 3 and never tells 2 *)
+Definition wa_h : hist_t :=
+  [(1, [OpRegComp 0 (Some 3) (Some 1003)]);
+   (2, [OpRegAgent 3 1003; OpSubAgent 3 (Some 1) false; OpUnregAgent 3])].
+Definition wa_sched :=
+  [Deliver (-2) 2; Deliver 2 0; Deliver 0 2; Deliver (-2) 2; Deliver 2 0; Deliver 0 2;
+   Deliver (-1) 1; Deliver 1 0; Deliver (-2) 2; Deliver 2 0].
+
+Lemma agent_agreement_unguarded_refuted_l :
+  exists h a ns sched x ad, 0 < a /\ In 0 ns /\ In a ns /\
+    let cf := run_from h ns sched in
+    quietb cf ns = true /\
+    In a (sm_get x (g_sub_agents (n_dir (w_st (nodes cf 0))))) /\
+    zlookup x (g_agents (n_dir (w_st (nodes cf 0)))) = Some ad /\
+    zlookup x (d_agents (n_disc (w_st (nodes cf a)))) = None.
+Proof.
+  exists wa_h, 2, w1_ns, wa_sched, 3, 1003. vm_compute. repeat split; auto.
+Qed.
+
+(* non-vacuity of the agent theorem: the same history without the refused un-registration, plus a
+   '*' subscriber, guard checked along the schedule *)
+Definition oka_h : hist_t :=
+  [(1, [OpSubAll (Some 5); OpRegAgent 1 1001]);
+   (2, [OpRegAgent 3 1003; OpSubAgent 3 (Some 1) false; OpUnregAgent 3; OpRegAgent 3 1004])].
+Definition oka_sched :=
+  [Deliver (-1) 1; Deliver 1 0; Deliver (-2) 2; Deliver 2 0; Deliver (-2) 2; Deliver 2 0; Deliver 0 2;
+   Deliver (-2) 2; Deliver (-2) 2; Deliver 2 0; Deliver 2 0; Deliver 0 2; Deliver 0 2; Deliver 0 1; Deliver 0 1; Deliver 0 1;
+   Deliver (-1) 1; Deliver 1 0; Deliver 0 1; Deliver 0 1; Deliver 0 1].
